@@ -676,3 +676,25 @@ Definition sofas_nodupb (d : xdoc) : bool := nodup_sb (map sofa_name (filter is_
 Definition reader_okb0 (parse_flt : string -> option flt) (s : schema) (d : xdoc) : bool :=
   doc_ok_xmi parse_flt s d && schema_okb s && sofa_feat_okb s && names_okb d
   && forallb (elem_okb s) (filter is_other d) && sofas_nodupb d && members_okb s d && other_ids_okb d.
+
+(* ---- totality of the reader: what a document must satisfy, beyond reader_okb0, for load_xmi not to raise ----
+   _parse_sofa passes the attributes of a Sofa element on as keywords (an unknown one is a TypeError); so does the attrs
+   constructor of a feature structure; the post-processing loop indexes sofas[value] for the sofa feature of every
+   subtype of AnnotationBase (KeyError for an absent attribute and for "0"); a reference written as "0" is looked up like
+   any other id, so the cas:NULL element must be there. *)
+Definition sofa_total_okb (e : xelem) : bool := forallb (fun kv => memb (fst kv) sofa_attr_names) (x_attrs e).
+Definition attrs_known (ti : tinfo) (e : xelem) : bool :=
+  forallb (fun kv => String.eqb (fst kv) A_ID || memb (pyname (fst kv)) (map fd_name (ti_feats ti))) (x_attrs e).
+Definition other_total_okb (s : schema) (e : xelem) : bool :=
+  match sch_find s (reader_tname (x_ns e) (x_tag e)) with
+  | Some ti =>
+    attrs_known ti e
+    && (negb (memb T_ANNOTATION_BASE (ti_anc ti) && has_feat ti "sofa")
+        || match xattr e "sofa" with
+           | Some a => match s2z a with Some z => negb (z =? 0) | None => false end
+           | None => false
+           end)
+  | None => false
+  end.
+Definition total_okb (s : schema) (d : xdoc) : bool :=
+  forallb sofa_total_okb (filter is_sofa d) && forallb (other_total_okb s) (filter is_other d) && existsb is_null d.
